@@ -822,3 +822,25 @@ func (w *PipeWriter) CloseWithError(err error) error { return w.p.closeWrite(err
 var _ io.ReadCloser = (*PipeReader)(nil)
 var _ io.WriteCloser = (*PipeWriter)(nil)
 var _ = errors.New
+
+// ---------------------------------------------------------------------------------
+// hooks for operations outside this package (file system calls of the command line tool)
+
+// OpPoint is the scheduling point before an externally hooked operation; a no-op outside a
+// controlled execution.
+func OpPoint(kind, obj string) {
+	if s := cur; s != nil && !s.aborted && s.cur != nil {
+		point(kind, obj, nil)
+	}
+}
+
+// AddState makes f part of the global state key of the execution in progress (shared state
+// that lives outside the shims, e.g. a digest of a scratch directory).
+func AddState(f func(h uint64) uint64) {
+	if cur != nil {
+		cur.objects = append(cur.objects, f)
+	}
+}
+
+// MixString folds s into the hash h (for AddState callbacks).
+func MixString(h uint64, s string) uint64 { return mixs(h, s) }
